@@ -380,7 +380,7 @@ func (x *runner) checkJID(entry string, j jid.JID, c cdesc) {
 	if len(p.D) > 1 && j.Equal(jid.NewUnsafe(p.L+p.D[:1], p.D[1:], p.R).JID) {
 		fail("accessors/equal-boundary", fmt.Sprintf("%q Equal to an address with the same bytes and other part boundaries", s))
 	}
-	if p.L != "" && j.Equal(jid.NewUnsafe(p.L[:len(p.L)-1], p.L[len(p.L)-1:]+p.D[:len(p.D)-1], p.D[len(p.D)-1:]+p.R).JID) {
+	if p.L != "" && p.D != "" && j.Equal(jid.NewUnsafe(p.L[:len(p.L)-1], p.L[len(p.L)-1:]+p.D[:len(p.D)-1], p.D[len(p.D)-1:]+p.R).JID) {
 		fail("accessors/equal-boundary", fmt.Sprintf("%q Equal to an address with the same bytes and other part boundaries", s))
 	}
 	if p.R != "" && j.Equal(jid.NewUnsafe(p.L, p.D+p.R[:1], p.R[1:]).JID) {
